@@ -79,7 +79,7 @@ New == /\ l <= Len(Rec) /\ Rec[l].ev = "new"
 Call == /\ l <= Len(Rec) /\ Rec[l].ev = "call"
         /\ LET p == Post(Rec[l]) IN
            IF p # {} THEN cands' = p /\ bad' = bad
-           ELSE cands' = Resync(Rec[l]) /\ bad' = Append(bad, <<l, IF Rec[l].res[1] = "Panic" THEN 5 ELSE 1>>)
+           ELSE cands' = Resync(Rec[l]) /\ bad' = (IF Len(bad) >= 5000 THEN bad ELSE Append(bad, <<l, IF Rec[l].res[1] = "Panic" THEN 5 ELSE 1>>))
         /\ l' = l + 1 /\ UNCHANGED bytes
 
 Next == New \/ Call
